@@ -185,7 +185,7 @@ def ctrl(ctx):
         return [G.mk_data(), m], {}
     cl = K.check_function(I, "gmm.log_weighted_likelihood", build, G.spec_log_weighted_likelihood, G.facts(), "ctl")
     bad = [c for c in cl if c.status == "refuted" and c.name.endswith("result")]
-    return [Clause("C17.control.stale-cache", "refuted" if bad else "discharged", "npsym", "stale normaliser must change the likelihood")]
+    return [Clause("C17.control.stale-cache", "refuted" if bad else ("discharged" if cl and all(c.status == "discharged" for c in cl) else "undecided"), "npsym", "stale normaliser must change the likelihood")]
 
 
 GROUPS = [guard(set_weights), guard(set_means), guard(set_variances), guard(set_thresholds), guard(gnorms_lazy),
